@@ -38,8 +38,13 @@ func TestProp(t *testing.T) {
 		"plain_http_xfp_list-http-first-nospace": 3, "plain_http_xfp_two-lines-http-first": 3, "plain_http_xfp_ws": 3,
 		"plain_http_xfp_http+forwarded-proto-https": 3, "plain_http_xfp_absent+x-forwarded-ssl-on": 3, "set_cookie_session_set": 20, "set_cookie_session_clear": 20, "set_cookie_csrf_set": 50, "set_cookie_csrf_clear": 10,
 		"cookie_domain_checked_configured": 20, "cookie_domain_checked_request-host": 20,
-		"responses_checked_against_explicit_override": 100,
-		"upstream_hdr_mode_weak_chain_timeout":        20, "upstream_hdr_mode_weak_chain_flush": 20, "upstream_hdr_mode_weak_chain_none": 10,
+		"cookie_domain_checked_under_hostile_x-forwarded-host": 30, "cookie_domain_checked_under_hostile_forwarded": 5,
+		"cookie_domain_checked_under_hostile_host-header": 5, "cookie_domain_checked_under_hostile_kind_parent": 30,
+		"return_address_host_checked_redirect-sign-in": 50, "return_address_host_checked_sign-out": 10,
+		"return_address_host_checked_under_hostile_header": 50, "https_upgrade_checked_under_hostile_header": 20,
+		"auth_cookie_domain_checked_under_hostile_header": 30,
+		"responses_checked_against_explicit_override":     100,
+		"upstream_hdr_mode_weak_chain_timeout":            20, "upstream_hdr_mode_weak_chain_flush": 20, "upstream_hdr_mode_weak_chain_none": 10,
 		"upstream_hdr_mode_dup_chain_timeout": 10, "upstream_hdr_mode_dup_chain_flush": 10,
 		"upstream_hdr_mode_mixed_chain_timeout": 5, "upstream_hdr_mode_mixed_chain_flush": 5,
 		"interim_responses": 20, "final_responses_after_upstream_1xx_chain_timeout": 10, "final_responses_after_upstream_1xx_chain_flush": 10,
